@@ -124,6 +124,18 @@ fn run_pq(ops: &[OpRec]) -> Vec<Value> {
             }
             "pull" => out.push(opt(q.pull())),
             "peek" => out.push(opt(q.peek())),
+            "churn" => {
+                // arg times (insert with key 0, pull): counts the pairs whose pull returned the entry just inserted
+                let mut good = 0u64;
+                for _ in 0..o.arg {
+                    q.insert(0, n);
+                    if q.pull() == Some((0, n)) {
+                        good += 1;
+                    }
+                    n += 1;
+                }
+                out.push(json!([good]));
+            }
             other => panic!("unknown op {}", other),
         }
     }
@@ -151,6 +163,17 @@ fn run_ipq(ops: &[OpRec]) -> Vec<Value> {
                 } else {
                     out.push(opt(p));
                 }
+            }
+            "churn" => {
+                let mut good = 0u64;
+                for _ in 0..o.arg {
+                    handles.push(q.insert(0, n));
+                    if q.pull() == Some((0, n)) {
+                        good += 1;
+                    }
+                    n += 1;
+                }
+                out.push(json!([good]));
             }
             "extract" => out.push(opt(q.extract(handles[(o.arg - 1) as usize]))),
             other => panic!("unknown op {}", other),
